@@ -108,20 +108,21 @@ def empty (sv : Bool) : ADict V := ⟨sv, []⟩
 
 /-- `__setitem__` -/
 def set (r : Rel) (a : ADict V) (k : VName) (v : V) : Except Err (ADict V) :=
-  let cs := csigned r a.signedValues k
-  if ok v then .ok { a with d := a.d.set cs.1 (signed cs.2 v) } else .error .assertion
+  if ok v then
+    .ok { a with d := a.d.set (csigned r a.signedValues k).1 (signed (csigned r a.signedValues k).2 v) }
+  else .error .assertion
 
 /-- `__getitem__` -/
 def get (r : Rel) (a : ADict V) (k : VName) : Except Err V :=
-  let cs := csigned r a.signedValues k
-  match a.d.get cs.1 with
-  | some v => .ok (signed cs.2 v)
+  match a.d.get (csigned r a.signedValues k).1 with
+  | some v => .ok (signed (csigned r a.signedValues k).2 v)
   | none => .error .keyError
 
 /-- `__delitem__` -/
 def del (r : Rel) (a : ADict V) (k : VName) : Except Err (ADict V) :=
-  let cs := csigned r a.signedValues k
-  if a.d.has cs.1 then .ok { a with d := a.d.del cs.1 } else .error .keyError
+  if a.d.has (csigned r a.signedValues k).1 then
+    .ok { a with d := a.d.del (csigned r a.signedValues k).1 }
+  else .error .keyError
 
 /-- `__contains__` -/
 def contains (r : Rel) (a : ADict V) (k : VName) : Bool :=
